@@ -64,7 +64,11 @@ def lossless_on_code(a_json, d_json):
     d = A.real_dialect(d_json)
     f = Feature(seqid="chr1", source="s", featuretype="gene", start=1, end=9, score=".", strand="+", frame=".",
                 attributes=copy.deepcopy(attrs), dialect=copy.deepcopy(d), keep_order=True)
+    first_print = str(f)
+    hash(f)                       # (hashing and comparing print the object as well)
     line = str(f)
+    if line != first_print:
+        line = line + "\n<printed differently the second time>"      # the extra line makes the verdict: not a single line any more
     res = {"single_line": "\n" not in line and "\r" not in line, "ncols": len(line.split("\t")), "line": line}
     try:
         g = feature_from_line(line, dialect=copy.deepcopy(d), keep_order=True)
